@@ -177,6 +177,7 @@ def run(rep: Report, tier: str) -> None:
     rep.check(ok, rf, sp.module, sp.qualname, "the engine stores remaining amounts into the same table", "_set_partial_amount no longer writes self.__acquired_lot_2_partial_amount[acquired_lot] = amount", loc(sp.node))
 
     # ---------------------------------------------------------------- C01.g (lot index)
+    engine.check_schedule_traversal(rep, rf)
     rg = rep.rule("C01.g", "lots are indexed by an order-preserving (UTC timestamp, padded id) key; candidate window ends at the last lot acquired at or before the event", floor=8)
     engine.check_key_builder(rep, rg)
     rh = rep.rule("C01.h", "lots and events reach the engine in time order: entry sets sort by timestamp only (stable), nothing else reorders an entry list", floor=4)
